@@ -24,13 +24,13 @@ def plan(tier, seed):
         if tier == "quick":
             mode = ("closure", "few") if sz <= 2 else (("depth", 2, "few") if sz <= 5 else ("depth", 1, "few"))
         else:
-            mode = ("closure", "few") if sz <= 6 else ("depth", 2, "few")
+            mode = ("closure", "few") if sz <= 4 else ("depth", 2, "few")
         units.append(("plain", [spec], mode))
     unis["plain-alphabet exploration (K n<=4, U2c)"] = len(plain)
     # every order in which the nodes can be expanded one by one (closure of the succ-only alphabet): new paths to nodes
     # whose sub-diagram is already expanded appear in every possible way
     succnets = [("k", k) for k, n in K.items() if len(n.sd[0]) >= 4 and len(n.sd[0]) <= (8 if tier == "quick" else 12)]
-    succnets += [("p4", a, b) for a, b in U.shard(U.P4_pairs(True), seed, 256 if tier == "quick" else 4) if 4 <= c04.sd_size(("p4", a, b)) <= 9]
+    succnets += [("p4", a, b) for a, b in U.shard(U.P4_pairs(True), seed, 256 if tier == "quick" else 64) if 4 <= c04.sd_size(("p4", a, b)) <= 9]
     for spec in succnets:
         units.append(("succ", [spec], ("closure", "succ")))
     unis["succ-only closure (all expansion orders)"] = len(succnets)
@@ -47,7 +47,7 @@ def plan(tier, seed):
     unis["deep-first expansion orders on unions (reference-free depth check, up to 8 variables)"] = len(deep)
     # synthetic depth-bookkeeping harness (bbmc/dagdepth.py)
     NSH = 64
-    dd = [(5, 10), (6, 9), (7, 8)] if tier == "quick" else [(5, 10), (6, 15), (7, 10)]
+    dd = [(5, 10), (6, 9), (7, 8)] if tier == "quick" else [(5, 10), (6, 15), (7, 9)]
     for (k, me) in dd:
         for sh in range(NSH if k >= 6 else 1):
             units.append(("dagdepth", [(k, me, sh, NSH if k >= 6 else 1)], ("dagdepth",)))
@@ -79,7 +79,7 @@ def plan(tier, seed):
     units.sort(key=lambda u: (u[0] == "summary", u[2][0] != "closure" if u[2] else True))
     return {
         "units": units, "universes": unis,
-        "bounds": {"plain": "closure (|SD|<=2 quick / <=6 thorough) else depth 2 (depth 1 above 5 nodes in quick), limits {None,2}; F3c at depth 1",
+        "bounds": {"plain": "closure (|SD|<=2 quick / <=4 thorough) else depth 2 (depth 1 above 5 nodes in quick), limits {None,2}; F3c at depth 1",
                    "depth harness": "every topologically labelled DAG with all nodes reachable, (nodes, max edges) in " + str(dd) + ", x both child orders x every order of single-node expansions, as an explicit state graph over (expanded set, depth vector); transitions call the real _ensure_edge",
                    "full": "C14 alphabet (queries, skip, block with sources, scc, build, reclaim, pickle, ...) depth 2",
                    "pairs": "is_subgraph / is_isomorphic on all ordered pairs of the first 25 reached plain states per network",
